@@ -12,7 +12,7 @@ use crate::{
         into_unspecified, set_keepalive,
         socks::{
             frames::setup_udp_session, PasswordAuth, SocksRequest, SocksResponse,
-            SOCKS_CMD_CONNECT, SOCKS_CMD_UDP_ASSOCIATE, SOCKS_REPLY_OK,
+            SOCKS_CMD_CONNECT, SOCKS_CMD_UDP_ASSOCIATE, SOCKS_REPLY_OK, SOCKS_VER_4,
         },
         tls::TlsClientConfig,
     },
@@ -126,7 +126,13 @@ impl super::Connector for SocksConnector {
         };
         req.write_to(&mut server, PasswordAuth::optional()).await?;
         let resp = SocksResponse::read_from(&mut server).await?;
-        if resp.cmd != SOCKS_REPLY_OK {
+        // socks4 replies use 90 for request granted, socks5 uses 0
+        let granted = if resp.version == SOCKS_VER_4 {
+            resp.cmd == 90
+        } else {
+            resp.cmd == SOCKS_REPLY_OK
+        };
+        if !granted {
             bail!("upstream server failure: {:?}", resp.cmd);
         }
         ctx.write()
